@@ -60,6 +60,10 @@ def grid_array(rng, n, lo, hi):
         ints[j + 1] = ints[j]
         return np.sort(ints)[::-1].astype(float) * Q
     ints = np.unique(ints)[::-1]
+    if rng.random() < .2 and ints.size >= 6:
+        # measured abscissae are not strictly monotonic: swap neighbours
+        j = rng.integers(1, ints.size - 2, max(1, ints.size // 6))
+        ints[j], ints[j + 1] = ints[j + 1].copy(), ints[j].copy()
     return ints.astype(float) * Q
 
 
@@ -167,7 +171,8 @@ def one_case(rec, rng, cid, keys):
                   lambda: "F-b at depths H*2^-{0,10,20,30,40}: %r"
                   % Fc[:5].tolist(), case)
         # monotony over the whole (descending) array: depth increases
-        Fd = F[::-1] if asc else F
+        # (sorted by depth: the abscissa may be locally non-monotonic)
+        Fd = F[np.argsort(-xin, kind="stable")]
         rec.check(np.all(np.diff(Fd) >= -4 * EPS * np.max(np.abs(Fd))),
                   "monotony", lambda: "force decreases with depth by %r"
                   % float(np.min(np.diff(Fd))), case)
